@@ -64,7 +64,7 @@ def tasks(tier):
                 ts.append(("buffer", w, inv, pdir, bdir, False))
                 ts.append(("buffer", w, inv, pdir, bdir, True))
     ts += [("expr", k) for k in range(len(EXPRS))]
-    ts += [("io-use",), ("domains",)]
+    ts += [("io-use",), ("domains",), ("ctor-directions",)]
     for kind in ("single", "diff"):
         for w in range(1, W + 1):
             for inv in range(1 << w):
@@ -473,6 +473,51 @@ def _buf_ports(buf, bdir):
     return ports
 
 
+def check_ctor_directions():
+    """Constructor contract of Buffer / FFBuffer / DDRBuffer on the directions: a buffer can be built on a port iff the port's
+    direction allows every direction the buffer uses -- an input buffer needs Input or Bidir, an output buffer Output or Bidir,
+    a bidirectional buffer Bidir -- and otherwise ValueError; for simulation, single-ended and differential ports, sliced and
+    inverted ports, every (port direction, buffer direction) pair."""
+    from amaranth.hdl import IOPort
+    from amaranth.lib import io
+    obs = []
+
+    def ports(pdir):
+        return {
+            "sim": lambda: io.SimulationPort(pdir, 2),
+            "single": lambda: io.SingleEndedPort(IOPort(2, name="pad"), direction=pdir),
+            "diff": lambda: io.DifferentialPort(IOPort(2, name="p"), IOPort(2, name="n"), direction=pdir),
+            "single-slice": lambda: io.SingleEndedPort(IOPort(3, name="pad"), direction=pdir)[0:2],
+            "single-inverted": lambda: ~io.SingleEndedPort(IOPort(2, name="pad"), direction=pdir),
+            "diff-slice": lambda: io.DifferentialPort(IOPort(3, name="p"), IOPort(3, name="n"), direction=pdir)[1:3],
+        }
+    allowed = {"i": {"i"}, "o": {"o"}, "io": {"i", "o", "io"}}
+    n = 0
+    for pdir in ("i", "o", "io"):
+        for pk, mkport in ports(pdir).items():
+            for bdir in ("i", "o", "io"):
+                for bname, mkbuf in (("Buffer", lambda d, p: io.Buffer(d, p)),
+                                     ("FFBuffer", lambda d, p: io.FFBuffer(d, p)),
+                                     ("DDRBuffer", lambda d, p: io.DDRBuffer(d, p))):
+                    n += 1
+                    legal = bdir in allowed[pdir]
+                    try:
+                        mkbuf(bdir, mkport())
+                        got = "accepted"
+                    except ValueError:
+                        got = "ValueError"
+                    except Exception as e:
+                        got = repr(e)[:120]
+                    ok = got == ("accepted" if legal else "ValueError")
+                    if not ok or (pk == "sim" and bname == "Buffer"):
+                        obs.append({"name": f"ctor-directions::{bname}({bdir!r}, {pk} port with direction {pdir!r})", "kind": "post",
+                                    "status": "proved" if ok else "refuted", "backend": "closed", "time_s": 0.0,
+                                    **({} if ok else {"failing_input": {"buffer": bname, "buffer direction": bdir, "port": pk, "port direction": pdir,
+                                                                        "constructor": got, "expected": "accepted" if legal else "ValueError"}})})
+    obs.append({"name": f"ctor-directions::all-{n}-combinations-evaluated", "kind": "post", "status": "proved", "backend": "closed", "time_s": 0.0})
+    return {"task": "ctor-directions", "paths": n, "solver_s": 0.0, "obligations": obs}
+
+
 def check_domains():
     """FFBuffer / DDRBuffer constructor contract for the domains: each direction's registers are in the domain named for
     it, "sync" when not named (independently of the other direction), a domain named for a direction the buffer does not
@@ -551,6 +596,8 @@ def run_task(task):
         return check_io_use()
     if k == "domains":
         return check_domains()
+    if k == "ctor-directions":
+        return check_ctor_directions()
     if k == "real-port":
         return check_real_port(*task[1:])
     if k == "canary-real-port":
